@@ -29,8 +29,8 @@ func rawtext(s string, trimBefore, trimAfter bool) []byte {
 	var (
 		spaces         = 0
 		seenNewline    = trimBefore
-		lastChar       rune
-		charBeforeTrim rune
+		lastChar       rune = noChar
+		charBeforeTrim rune = noChar
 		result         = make([]byte, len(s))
 		resultLen      = 0
 	)
@@ -100,9 +100,13 @@ func rawtext(s string, trimBefore, trimAfter bool) []byte {
 	}
 }
 
+// noChar stands for "no character": the neighbour of a text that begins at a
+// tag.  (Decoding never yields it, unlike 0, which a NUL in the text does.)
+const noChar rune = -1
+
 func isTightJoiner(r rune) bool {
 	switch r {
-	case 0, '<', '>':
+	case noChar, '<', '>':
 		return true
 	}
 	return false
